@@ -97,3 +97,12 @@ claim("C17",
       "breaking and idempotence are numerical behaviour and are not decided by static analysis.",
       "Trusted: analysis/sym.py, analysis/abs*.py, specs/justifications.txt (the `original +- delta` operator calls are justified by a range argument).",
       "DESIGN.md 5/C17")
+claim("C20",
+      "sibling rules over the 16 serde helper modules (def-use terms), error-mapping / delegation / reachability rules, interval abstract interpretation, in the `serde` build",
+      "Decides in the serde configuration (never compiled by the pinned tests): per unit the serialize accessor, the signed visitor's constructor and the unsigned "
+      "visitor's divisor/multiplier (D*M = 10^9) agree across the DateTime<Utc> and NaiveDateTime families and the _option variants; failing conversions map to "
+      "invalid_ts and no visitor unwraps; string forms go through the default writers / RFC 3339 writer and FromStr (reducing to C09/C10); TimeDelta deserializes only "
+      "through TimeDelta::new; serialization never reaches the panicking naive_local; no panic or lossy cast in any serde function (abstract interpretation). The round "
+      "trip through concrete data formats is not decided.",
+      "Trusted: analysis/sym.py, analysis/abs*.py, specs/justifications.txt; serde's own crates are outside the analysed program.",
+      "DESIGN.md 5/C20")
